@@ -6,6 +6,7 @@ mod c01;
 mod c02;
 mod c03;
 mod c08;
+mod c10;
 mod c18;
 mod c11;
 mod c12;
@@ -61,6 +62,8 @@ fn main() {
     "eng" => cases.iter().map(eng::run_case).collect(),
     "pair" => cases.iter().map(pair::run_case).collect(),
     "c12" => cases.iter().map(c12::run_case).collect(),
+    "c10" => c10::run_all(cases, &args[3]),
+    "c10w" => cases.iter().map(c10::run_case).collect(),
     "c11" => c11::run_all(cases),
     "c01" => run_parallel(cases, c01::run_case, 8),
     "c01seq" => cases.iter().map(c01::run_case).collect(),
